@@ -201,8 +201,28 @@ func ruleC06(p *Program, r *Run) {
 		}
 	}
 	r.Check(lookups == 1 && scopeEv != nil, "C06/one-reader", "pql scope lookups", p.Pos(we.Pos()), "exactly one lookup site", fmt.Sprintf("%d lookups of the scope map found (expected exactly one, in the identifier case)", lookups))
-	if scopeEv != nil && builtinEv != nil {
-		r.Check(scopeEv.Call.Pos() < builtinEv.Call.Pos(), "C06/order", "pql.writeExpression scope before built-in constants", p.Pos(scopeEv.Call.Pos()), "bindings and parameters shadow true/false/null", "built-in constants are resolved before the scope: a let or parameter named like a constant would be ignored")
+	_ = builtinEv
+	{
+		// the lookup into the scope comes before the lookup into the table of built-in constants
+		var scopeAt, builtinAt token.Pos
+		for _, root := range p.regionOf(p.PQL, we.Body) {
+			ast.Inspect(root, func(n ast.Node) bool {
+				ix, ok := n.(*ast.IndexExpr)
+				if !ok {
+					return true
+				}
+				if f := selField(p.Info, ix.X); f != nil && fldName(f) == "scope" && !scopeAt.IsValid() {
+					scopeAt = ix.Pos()
+				}
+				if o := objOf(p.Info, ix.X); o != nil && objName(o) == "builtinIdentifiers" && !builtinAt.IsValid() {
+					builtinAt = ix.Pos()
+				}
+				return true
+			})
+		}
+		if scopeAt.IsValid() && builtinAt.IsValid() {
+			r.Check(scopeAt < builtinAt, "C06/order", "pql.writeExpression scope before built-in constants", p.Pos(scopeAt), "bindings and parameters shadow true/false/null", "built-in constants are resolved before the scope: a let or parameter named like a constant would be ignored")
+		}
 	}
 	// the substituted text is written verbatim and nothing else on that path
 	r.Floor("C06/one-reader", 2)
